@@ -22,7 +22,7 @@ def wf(prop, graph, items, buf, mx, kind="func", mode="dpor", oracles=(), events
     job = {"id": jid, "prop": prop, "scen": scen, "mode": mode, "budget": kw.pop("budget", budget(tier)), "oracles": list(oracles), "events_dep": events_dep, "force_all": -1}
     job.update(kw)
     # scenarios that can also be run natively (real runtime, real bash, un-instrumented scipipe)
-    if graph not in ("tasks", "slots", "gjoin", "gjoin2") and mode == "dpor" and not job.get("crash") and not job.get("race") and not scen.get("abs_src") and scen.get("extra") in (None, "", "recorder", "subdir", "emptyparam-setout", "prepend") \
+    if graph not in ("tasks", "slots", "gjoin", "gjoin2") and mode == "dpor" and not job.get("crash") and not job.get("race") and not scen.get("abs_src") and scen.get("extra") in (None, "", "recorder", "recorder2", "subdir", "emptyparam-setout", "prepend") \
             and not job.get("seed_dir") and job.get("omit_edge") is None and not job.get("omit_fromstr") and not job.get("drop_proc") and not job.get("force_order") and not job.get("fault") and not job.get("external"):
         # (failing runs are not compared natively: os.Exit does not kill the task's child processes,
         # which the model's process-group kill does)
@@ -337,6 +337,12 @@ def plan_c07(tier, seed):
             if sum(cores) <= mx:
                 jobs.append(with_delay_fallback(wf("C07", "g13", 1, 1, mx, oracles=o, tier=tier, cores=cores, extra="barrier", events_dep=False, id=f"C07-g13-barrier-m{mx}-c{cs}")))
     jobs.append(with_delay_fallback(wf("C07", "g2", 2, 1, 2, oracles=o, tier=tier, extra="barrier", events_dep=False, id="C07-g2-barrier-2items-m2")))
+    # work conservation inside ONE process: the first and the last of 3 (4) tasks rendezvous on 2 slots while the
+    # ones in between come and go (a finished task does not keep a later one from starting)
+    jobs.append(with_delay_fallback(wf("C07", "g2", 3, 1, 2, oracles=o, tier=tier, extra="barrier-first-last", events_dep=False, id="C07-g2-barrier-first-last-3items-m2")))
+    jobs.append(with_delay_fallback(wf("C07", "g2", 3, 1, 2, oracles=o, tier=tier, extra="barrier-first-last", events_dep=False, pre={"in1.txt.p": "p.out(in=in1.txt;)"}, id="C07-g2-barrier-first-last-3items-m2-middle-skipped")))
+    if tier != "quick":
+        jobs.append(with_delay_fallback(wf("C07", "g2", 4, 1, 2, oracles=o, tier=tier, extra="barrier-first-last", events_dep=False, id="C07-g2-barrier-first-last-4items-m2")))
     # environment: the output of a queued task is created by somebody else at an arbitrary moment (every
     # placement of that write): whatever the task then does, the slots must come back
     for g, i, mx, cores, ext in ((("g2", 2, 1, None, "in1.txt.p"), ("g2", 2, 2, [2], "in1.txt.p")) if tier == "quick" else (("g2", 2, 1, None, "in1.txt.p"), ("g2", 3, 1, None, "in1.txt.p"), ("g2", 2, 2, [2], "in1.txt.p"), ("g3", 2, 1, None, "in1.txt.p"))):
@@ -371,6 +377,9 @@ def plan_c08(tier, seed):
     add("g2", 3, 1, 3, pre={"in1.txt.p": "p.out(in=in1.txt;)", "in2.txt.p": "p.out(in=in2.txt;)"}, id="C08-g2-i3-m3-pre12")
     add("g2", 3, 1, 2, pre={"in1.txt.p": "p.out(in=in1.txt;)"}, id="C08-g2-i3-m2-pre1")
     add("g3", 2, 1, 2, pre={"in1.txt.p.q": "q.out(in=p.out(in=in1.txt;);)"}, id="C08-g3-i2-m2-preq1")
+    # fan-out: two receivers on the observed port, each must see the items in order
+    jobs.append(with_delay_fallback(wf("C08", "g2", 3, 1, 3, oracles=o, tier=tier, events_dep=False, extra="recorder2", id="C08-g2-i3-m3-two-receivers"), 1))
+    jobs.append(with_delay_fallback(wf("C08", "g2", 2, 1, 2, oracles=o, tier=tier, events_dep=False, extra="recorder2", id="C08-g2-i2-m2-two-receivers"), 1))
     add("g2", 2, 1, 2, kind="cmd", id="C08-g2-i2-m2-cmd"); add("g3", 2, 1, 2, kind="cmd", id="C08-g3-i2-m2-cmd"); add("g5b", 1, 1, 2, kind="cmd", id="C08-g5b-i1-m2-cmd")
     if tier != "quick":
         add("g2", 3, 2, 2); add("g3", 3, 1, 3); add("g3", 3, 1, 2); add("g5b", 2, 1, 2); add("g5b", 2, 1, 3); add("g12", 3, 1, 2); add("g12", 4, 2, 3); add("g7", 2, 1, 2)
@@ -684,6 +693,8 @@ def crash_explore_jobs(prop, tier, oracles, snap_root=None):
     # CONSUMER of an absolute path hashes that path into its temp-dir name, and recoveries run in a
     # relocated copy of the crash state (another scratch directory), where that name would differ
     add("g2", 1, 1, "cmd", extra="absout", depth2=False)
+    add("g2", 1, 1, "cmd", extra="absout-mod", depth2=False)   # ... and the command names the output through a modifier chain
+    add("g2", 1, 1, "cmd", extra="submod", depth2=False)
     # two tasks in flight
     add("g2", 2, 2, "cmd", disk_dep=False, mode="delay", delay=2 if not q else 1, depth2=not q)
     if not q or prop == "C01":
@@ -831,14 +842,16 @@ def plan_c02(tier, seed):
                     continue
                 if tier == "quick" and len(units) > 3 and len(sub) not in (1, len(units)) and idx % 2:
                     continue
-                for content in ("ref", "user"):
+                for content in ("ref", "user", "empty"):
                     for audit in (True, False):
-                        if tier == "quick" and content == "user" and not audit:
+                        if tier == "quick" and content in ("user", "empty") and not audit:
                             continue
+                        if content == "empty" and len(sub) > 1 and tier == "quick":
+                            continue   # a legitimately EMPTY existing output (a filter without hits): singletons in quick
                         pre = {}
                         for u in sub:
                             for path, c in units[u].items():
-                                pre[path] = c if content == "ref" else "user-content-of-" + path
+                                pre[path] = c if content == "ref" else ("" if content == "empty" else "user-content-of-" + path)
                         nj = copy.deepcopy(j)
                         for k in ("base", "_list", "args"):
                             nj.pop(k, None)
@@ -881,7 +894,7 @@ def plan_c02(tier, seed):
         # the skip decision walks the task's out-IPs in map order: every other order, for histories of multi-output tasks
         return mo(ctx, [r for r in prev if r["job"].get("pre") and r["job"].get("pre_audit") and "-ref-" in r["job"]["id"]])
     return {"level": "fault_enumeration", "stages": [stage1, stage2, stage3, stage4],
-            "rule": "histories: every non-empty subset of the workflow's tasks has its outputs pre-placed on disk (reference bytes / arbitrary user bytes, with / without .audit.json) x every Mazurkiewicz trace of the run; plus 'complete run, run again in place'; oracle: no start event for a task with a pre-existing output, (inode, mtime_ns, size, bytes) of every pre-existing file identical before/after, no mutating FS call ever targets it (online monitor in the FS seam), downstream content = reference function of the pre-existing bytes; non-trivial = distinct (history, terminal outcome) pairs",
+            "rule": "histories: every non-empty subset of the workflow's tasks has its outputs pre-placed on disk (reference bytes / arbitrary user bytes / zero bytes, with / without .audit.json) x every Mazurkiewicz trace of the run; plus 'complete run, run again in place'; oracle: no start event for a task with a pre-existing output, (inode, mtime_ns, size, bytes) of every pre-existing file identical before/after, no mutating FS call ever targets it (online monitor in the FS seam), downstream content = reference function of the pre-existing bytes; non-trivial = distinct (history, terminal outcome) pairs",
             "assumptions": BASE_ASSUMPTIONS + ["multi-output tasks have all or none of their outputs pre-existing, except in graph g7b where the consumed output alone pre-exists (a partial history whose missing output is consumed downstream makes the consumer fail: C09's concern)", "range-over-map orders: every other order of each site is forced for the g7/g7b histories (delay bound 0/1)"],
             "distinct_nontrivial_fn": lambda rs: sum((r.get("distinct_outcomes") or 0) for r in rs if r["job"].get("pre") or r["job"].get("seed_dir"))}
 
